@@ -22,7 +22,8 @@ from __future__ import annotations
 import ast
 from pathlib import Path
 
-OUT = Path(__file__).resolve().parent.parent.parent / "lean" / "OPM" / "Gen" / "TagSites.lean"
+from vp import core as _core  # the Lean project this run works in (private copy for scratch trees)
+OUT = _core.LEAN / "OPM" / "Gen" / "TagSites.lean"
 
 FILES = [
     "lang/exec/tags.py", "lang/exec/tags_impl.py", "lang/exec/pinterpreter.py",
